@@ -595,6 +595,9 @@ def expand_ops(ops):
         if op[0] == 'dumpreopen':
             out.append(['dump'])
             out.append(['reopen'])
+        elif op[0] == 'dumpswitch':
+            out.append(['dump'])
+            out.append(['switch'])
         elif op[0] == 'sweep':
             # one call of every pool entry, starting at entry op[1] (a run of distinct arguments: fills and overflows the cache)
             n = op[2]
@@ -636,6 +639,7 @@ def run_history(case, root=None, ops=None, fork_check=None):
         tr.fn, tr.f, tr.cache = sess.fn, sess.f, sess.cache
         tr.sessions = sessions
         prev = None
+        other = None
         for op in expand_ops(ops if ops is not None else cfg['ops']):
             if op[0] in ('redecorate', 'reopen'):
                 st = Step(op=op, kind=op[0])
@@ -652,6 +656,26 @@ def run_history(case, root=None, ops=None, fork_check=None):
                         raise
                     st.exc = e
                 st.evals = 0
+                tr.steps.append(st)
+                prev = None
+                continue
+            if op[0] == 'switch':
+                # TWO live decorated functions, each with its own handle on the same persistent location, used in turn
+                # (the first switch creates the second one; later switches alternate). Elsewhere: nothing happens.
+                st = Step(op=op, kind='switch')
+                st.evals = 0
+                if backend_persistent(cfg['backend']) and not cfg.get('attach_later'):
+                    try:
+                        if other is None:
+                            other, sess = sess, Session(cfg, root)
+                            sessions.append(sess)
+                        else:
+                            other, sess = sess, other
+                    except BaseException as e:
+                        if isinstance(e, (KeyboardInterrupt, SystemExit, MemoryError)):
+                            raise
+                        st.exc = e
+                    st.result = 'switched'
                 tr.steps.append(st)
                 prev = None
                 continue
